@@ -178,6 +178,10 @@ func (a *FuncAction) Exec(ctx context.Context, bs Bindings, props StepProps) (*E
 		if exe == nil {
 			exe = NewExecution(nil)
 		}
+		if exe.Events == nil {
+			// An Execution that wasn't made by NewExecution.
+			exe.Events = newEvents()
+		}
 		t := map[string]interface{}{
 			"action":  "executed",
 			"emitted": len(exe.Events.Emitted),
